@@ -92,6 +92,8 @@ def check_C16(tier, seed, res, replay=None):
         c["id"] = ["m", i]
         c["src"] = "random-medium"
         cases.append(present_lts(c, rng))
+    from p_ta import load_killers, model_with_mutants
+    cases += load_killers("lts.ndjson")
     nt = lambda c: c["n"] >= 2 and len(c["edges"]) > 0
     res.count_cases(cases, nt)
     res.add_samples([c for c in cases if nt(c)][:3])
@@ -118,3 +120,38 @@ def check_C16(tier, seed, res, replay=None):
         v = vlib.tlc_validate("TraceLTS.tla", [ef], heap="6g")
         res.add_validation(v)
         res.report_fails(v["fails"], os.path.join(vlib.OUT, "viol"))
+    # Layer 2: the partition-relation engine as a state machine (blocks, block relation, counters with parallel edges,
+    # remove lists, queue); every LTS / partition / preorder of the bound, every processing order; safety + termination
+    model_with_mutants(res, "LtsSim.tla", "LtsSimAll.cfg" if tier == "thorough" else "LtsSim4.cfg",
+                       ["DedupPre", "NoInheritRemove", "NoMaskWhole", "SkipPrune"] if tier == "thorough" else [], "LtsSim", timeout=3000)
+    if tier == "thorough":
+        res.add_model(vlib.tlc_model("LtsSim.tla", "LtsSim4.cfg", timeout=3000, heap="16g"))
+    # step-level binding of LtsSim: recorded executions of the real engine must be behaviours of the model (evidence only)
+    import p_hist
+    def mult_ok(c):
+        seen = {}
+        for e in c["edges"]:
+            seen[tuple(e)] = seen.get(tuple(e), 0) + 1
+        return all(v <= 2 for v in seen.values())      # the model's multiplicities are 1 or 2
+    pool = [c for c in cases if nt(c) and c["n"] <= 6 and mult_ok(c) and all(e[1] < 4 for e in c["edges"])]
+    rng.shuffle(pool)
+    sample = [dict(c, op="ltstrace") for c in pool[:8000 if tier == "thorough" else 1500]]
+    cf = os.path.join(rd, "bind.cases.ndjson")
+    vlib.write_ndjson(cf, sample)
+    items = []
+    for sh in vlib.drive(cf, os.path.join(rd, "bind.ev"), timeout_ms=3000):
+        for ev in vlib.read_ndjson(sh):
+            if ev.get("outcome") == "ok" and ev["res"]["events"] and ev["res"]["events"][0].get("e") == "Start":
+                evs = ev["res"]["events"]
+                items.append(({"id": ev.get("id"), "kind": "ltssim", "n": ev["n"], "edges": ev["edges"], "part": ev.get("part"), "rel": ev.get("rel")},
+                              [evs[0], {"e": "Begin"}] + evs[1:]))
+    mb = res.extra.setdefault("model_binding", {})
+    if items:
+        vb = p_hist.tlc_validate_seq("TraceLtsSim.tla", "TraceLtsSim.cfg", items, rd, "bind", emit_reset=False)
+        res.add_validation(vb)
+        mb["LtsSim"] = {"executions": len(items), "step_events_accepted": vb["events"], "diverged": len(vb["fails"]),
+                        "first_divergence": ({"case": vb["fails"][0][0], "at_event": vb["fails"][0][2]} if vb["fails"] else None)}
+        if vb["fails"]:
+            print("MODEL-BINDING-DIVERGED model=LtsSim executions=%d diverged>=%d (evidence only, not a violation)" % (len(items), len(vb["fails"])))
+    else:
+        mb["LtsSim"] = "no step events recorded (hook absent?)"
